@@ -3,8 +3,9 @@ CONSTANTS
   Peer = {}
   Group = {}
   MaxKnown = 0
+  HsDirs = {}
   FNode <- F4
-  Overlays <- AllOverlays
+  Overlays <- Iso4
   Joined <- AnyJoined
   MaxMsgs = 1
   MaxWindows = 1
